@@ -144,7 +144,7 @@ def _session_from_path(path):
 
 def plan(tier, seed):
     n = 16 if tier == "quick" else 48
-    return [{"kind": "machine", "shard": i, "seed": seed, "examples": 4 if tier == "quick" else 18} for i in range(n)]
+    return [{"kind": "machine", "shard": i, "seed": seed, "examples": 4 if tier == "quick" else 54} for i in range(n)]
 
 
 def work(sh):
